@@ -550,14 +550,23 @@ public:
 			}
 			else if constexpr (std::is_integral_v<T>)
 			{
-				if constexpr (std::is_same_v<T, int64_t>) {
-					mRootJson.SetInt64(value);
+				if constexpr (std::is_signed_v<T>)
+				{
+					if constexpr (sizeof(T) > sizeof(int)) {
+						mRootJson.SetInt64(value);
+					}
+					else {
+						mRootJson.SetInt(value);
+					}
 				}
-				else if constexpr (std::is_same_v<T, uint64_t>) {
-					mRootJson.SetUint64(value);
-				}
-				else {
-					mRootJson.SetInt(value);
+				else
+				{
+					if constexpr (sizeof(T) > sizeof(unsigned)) {
+						mRootJson.SetUint64(value);
+					}
+					else {
+						mRootJson.SetUint(value);
+					}
 				}
 			}
 			else if constexpr (std::is_floating_point_v<T>) {
